@@ -270,6 +270,8 @@ def import_all_modules(parent_dir: str, package: str) -> list[tuple[str, str]]:
         for fn in sorted(filenames):
             if not fn.endswith(".py"):
                 continue
+            if fn == "setup.py" and dirpath == root:
+                continue  # --meta setup: a setuptools script (calls setup() on import), not a module of the package
             rel = os.path.relpath(os.path.join(dirpath, fn), parent_dir)[:-3]
             parts = rel.split(os.sep)
             if parts[-1] == "__init__":
